@@ -70,6 +70,19 @@ CHECKS += [
     ),
 ]
 
+CHECKS += [
+    dict(
+        id="C05",
+        text="For each of 29 formulas (plain, interactions in both factor orders, scalings, Python factors, stateful transforms, contrasts, "
+             "two-sided and multi-part) and two frames (clean; nulls in three cells) the full product of 3 outputs x 5 entry points x 3 "
+             "materializer/input combinations (pandas, narwhals on pandas, narwhals on a pyarrow table) x 2 null policies = 90 variants is "
+             "built by the real code and compared (values, shape, spec column names, pandas labels) with the pandas/model_matrix variant.",
+        design_ref="DESIGN.md section 3 C05",
+        note="Pure differential: no reference values. polars is not installed; bool columns excluded (property silent on their kind); "
+             "index labels are not compared.",
+    ),
+]
+
 ALL = ["C%02d" % i for i in range(1, 21)]
 _reason = "check not built yet in this revision (work in progress; see DESIGN.md section 3 for the planned bounded-exhaustive check)"
 NOT_APPLICABLE = [dict(property_id=i, reason=_reason) for i in ALL if i not in {c["id"] for c in CHECKS}]
